@@ -669,11 +669,19 @@ Fixpoint qscan (in_string in_escape in_comment : bool) (q : list N) : option (bo
       else qscan false false false q'
   end.
 
-(* the character written after a global's name when it has no quantifier: any one whitespace character *)
-Definition quant_text (L : layout) (q : quant) : list N :=
-  match q with
-  | QOpt => [63] | QStar => [42] | QPlus => [43]
-  | _ => [match (l_zeros L [] mod 4)%nat with 0%nat => 32 | 1%nat => 9 | 2%nat => 10 | _ => 13 end]
+(* the quantifier character written directly after a global's name; One has no character *)
+Definition quant_text (q : quant) : list N :=
+  match q with QOpt => [63] | QStar => [42] | QPlus => [43] | _ => [] end.
+Definition quant_char (c : N) : bool := (c =? 63) || (c =? 42) || (c =? 43).
+(* r does not begin with a quantifier character *)
+Definition no_quant_start (r : list N) : Prop :=
+  match r with [] => True | c :: _ => quant_char c = false end.
+(* a global whose written form ends with its bare name: no quantifier character and no default.  What
+   follows it must neither continue the name nor be read as its quantifier. *)
+Definition global_bare (g : global) : bool :=
+  match gl_default g with
+  | Some _ => false
+  | None => match gl_quant g with QOpt | QStar | QPlus => false | _ => true end
   end.
 
 Section FileRender.
@@ -682,7 +690,7 @@ Section FileRender.
   Definition item_text (L : layout) (it : item) : list N :=
     match it with
     | IGlobal g =>
-        t_global ++ Gs L 0 true true ++ gl_name g ++ quant_text L (gl_quant g)
+        t_global ++ Gs L 0 true true ++ gl_name g ++ quant_text (gl_quant g)
         ++ match gl_default g with
            | None => []
            | Some d => G L 1 ++ [61] ++ G L 2 ++ render_string (l_esc L []) d
@@ -695,7 +703,8 @@ Section FileRender.
     end.
   Definition item_ends_word (L : layout) (it : item) : bool :=
     match it with
-    | IGlobal _ | IStanza _ _ => false
+    | IGlobal g => global_bare g
+    | IStanza _ _ => false
     | IInherit _ => true
     | IShorthand h => attrs_ends_word (sub L 5) 0 (sh_attrs h)
     end.
@@ -703,6 +712,19 @@ Section FileRender.
     match it with
     | IStanza q _ => match q with c :: _ => is_ident X c | [] => false end
     | _ => true
+    end.
+  (* a bare global directly followed by an item that starts with `?`, `*` or `+` (only the query of a
+     stanza can) would take that character for its quantifier *)
+  Definition item_bare (it : item) : bool := match it with IGlobal g => global_bare g | _ => false end.
+  Definition item_starts_quant (it : item) : bool :=
+    match it with IStanza (c :: _) _ => quant_char c | _ => false end.
+  (* does the item(s) l following `it` begin with a character that must not directly follow a final
+     word of `it`?  (an identifier character; after a bare global also a quantifier character.)  The
+     gap between the two is then forced non-empty (sep). *)
+  Definition next_clash (X : ext) (it : item) (l : list item) : bool :=
+    match l with
+    | it2 :: _ => item_starts_word X it2 || (item_bare it && item_starts_quant it2)
+    | [] => false
     end.
   Definition item_pats (it : item) : list str :=
     match it with IStanza _ z => stmts_pats tbl (st_stmts z) | _ => [] end.
@@ -735,7 +757,7 @@ Section FileRender.
       | [] => []
       | it :: l' =>
           item_text (sub L (2 * i)) it
-          ++ Gs L (2 * i + 1) (item_ends_word (sub L (2 * i)) it) (match l' with it2 :: _ => item_starts_word X it2 | [] => false end)
+          ++ Gs L (2 * i + 1) (item_ends_word (sub L (2 * i)) it) (next_clash X it l')
           ++ items_text L (S i) l'
       end.
     Fixpoint items_loc (L : layout) (i : nat) (p : loc) (k : nat) (l : list item) : list item :=
@@ -745,7 +767,7 @@ Section FileRender.
           item_loc (sub L (2 * i)) p k it ::
           items_loc L (S i)
             (pos_after p (item_text (sub L (2 * i)) it
-               ++ Gs L (2 * i + 1) (item_ends_word (sub L (2 * i)) it) (match l' with it2 :: _ => item_starts_word X it2 | [] => false end)))
+               ++ Gs L (2 * i + 1) (item_ends_word (sub L (2 * i)) it) (next_clash X it l')))
             (k + length (item_pats it))%nat l'
       end.
     Definition file_text (L : layout) (l : list item) : list N := G L 0 ++ items_text (sub L 1) 0 l.
@@ -795,6 +817,6 @@ Section WfItems.
         end /\
         queries_ok L (S i)
           (off + bytes (item_text tbl (sub L (2 * i)) it
-                        ++ Gs L (2 * i + 1) (item_ends_word (sub L (2 * i)) it) (match l' with it2 :: _ => item_starts_word X it2 | [] => false end))) l'
+                        ++ Gs L (2 * i + 1) (item_ends_word (sub L (2 * i)) it) (next_clash X it l'))) l'
     end.
 End WfItems.
